@@ -23,7 +23,7 @@ ASSUMPTIONS = [
     'the number of *_value_changed notifications is not asserted (not stated); notify is only exercised',
     'evaluated at quiescence of a manager stepped by tick() from the checking thread',
 ]
-REQUIRED = ['event_without_any_handler_asks_for_success_feedback', 'awaited_event_due_its_own_success_feedback', 'awaited_event_due_its_own_failure_feedback', 'handler_of_an_exception_event_raised', 'falsy_result', 'handler_resumed_from_call', 'base_exception_raised', 'raise_plus_generator', 'generator_raises_at_step', 'multi_value_list', 'single_value_scalar', 'success_requested',
+REQUIRED = ['handler_suspended_by_sleep', 'event_without_any_handler_asks_for_success_feedback', 'awaited_event_due_its_own_success_feedback', 'awaited_event_due_its_own_failure_feedback', 'handler_of_an_exception_event_raised', 'falsy_result', 'handler_resumed_from_call', 'base_exception_raised', 'raise_plus_generator', 'generator_raises_at_step', 'multi_value_list', 'single_value_scalar', 'success_requested',
             'failure_requested', 'notify_requested', 'success_channels_override', 'child_event_from_handler', 'two_raises_one_event',
             'same_event_object_fired_again', 'event_object_fired_again_after_a_handler_raised', 'handler_returned_nested_value',
             'nested_value_next_to_a_raising_handler', 'handler_call_timed_out', 'handler_called_again_right_after_timeout']
@@ -88,6 +88,11 @@ AWAIT_SHAPES = {
     'GCg': (True, [['call', {'name': 'kg', 'flags': ALLF}], ['yield', 'a']]),
     'GWg': (True, [['wait', {'name': 'kg', 'flags': ALLF}], ['yield', 'a']]),
     'GCx': (True, [['call', {'name': 'kx', 'flags': ALLF}], ['yield', 'a']]),
+    # handlers suspended by the other coroutine primitive, `yield sleep(0)` (resumed in the next iteration): suspended handlers like any other
+    'GS0': (True, [['sleep', 0], ['yield', 'a']]),
+    'GSS': (True, [['yield', 'a'], ['sleep', 0], ['sleep', 0], ['yield', 'b']]),
+    'GSX': (True, [['sleep', 0], ['raise']]),
+    'GSn': (True, [['sleep', 0]]),
     'GWx': (True, [['wait', {'name': 'kx', 'flags': ALLF}], ['yield', None]]),
 }
 
@@ -232,6 +237,8 @@ def evaluate(case, w, problems, canary, norm):
                 marks.add('handler_called_again_right_after_timeout')
         if any(h.get('shape') in ('XB', 'GXB1') for h in decl):
             marks.add('base_exception_raised')
+        if any(h.get('shape') in ('GS0', 'GSS', 'GSX', 'GSn') for h in decl):
+            marks.add('handler_suspended_by_sleep')
         if info['name'] == 'exception' and raises:
             marks.add('handler_of_an_exception_event_raised')
         if any(h.get('shape') == 'X' for h in decl) and any(h.get('gen') and not h['shape'].startswith('GX') for h in decl):
@@ -308,6 +315,12 @@ def corpus():
         cs.append({'handlers': mk_handlers('e', ['X']), 'fires': [{'name': 'u', 'flags': fl, 'success_channels': ['other']}, {'name': 'e', 'flags': fl}], 'unprobed': ['u']})
         cs.append({'handlers': mk_handlers('e', ['R']), 'fires': [{'name': 'u', 'flags': fl}], 'unprobed': ['u'], 'under_run': True})
         cs.append({'handlers': mk_handlers('e', ['R']), 'fires': [{'name': 'u', 'flags': fl}], 'unprobed': ['u'], 'mk': 'attr', 'refire': 1})
+    for sh in ('GS0', 'GSS', 'GSX', 'GSn'):
+        for shapes in ([sh], [sh, 'R'], ['X', sh], [sh, 'G1v'], ['GX1', sh], [sh, sh]):
+            for fl in (ALLF, {'success': True}):
+                cs.append({'handlers': mk_handlers('e', shapes), 'fires': [{'name': 'e', 'flags': fl}]})
+        cs.append({'handlers': mk_handlers('e', [sh, 'R']), 'fires': [{'name': 'e', 'flags': ALLF}], 'under_run': True})
+        cs.append({'handlers': mk_handlers('e', [sh, 'X']), 'fires': [{'name': 'e', 'flags': ALLF}], 'refire': 1})
     # awaited events that ask for feedback themselves (fired by call(), waited for by object and by name; handlers plain / generator / raising)
     for sh in sorted(AWAIT_SHAPES):
         for shapes in ([sh], [sh, 'R'], ['X', sh], [sh, sh]):
